@@ -268,106 +268,22 @@ class _Operand(PyModel):
 
 
 def rule_3(ctx):
-    """Reverse-Polish operand order, decided by partially evaluating build_ast and OperatorNode.eval on marker operands."""
+    """Operand order through build_ast and the node classes, end to end: the left operand of a written operator is the first
+    argument of its function and the right operand the second, a prefix operator takes the operand that follows it, call arguments
+    keep their written order - for non-commutative operators, on distinguishable operands."""
+    from . import parsetables as P
     pm = ctx.mod('parser')
     build = pm.func('FormulaParser.build_ast')
-    consts = _tok_consts(ctx)
-    infix_s, prefix_s = consts['TOK_TYPE_OP_IN'], consts['TOK_TYPE_OP_PRE']
-    loops = [n for n in build.body if isinstance(n, ast.For) and isinstance(n.target, ast.Name)]
-    if len(loops) != 1:
-        raise AnchorMissing('build_ast: loop over the reverse-Polish node list')
-    lp = loops[0]
-    nodevar = lp.target.id
-    stack_names = {c.func.value.id for c in ast.walk(lp) if isinstance(c, ast.Call) and isinstance(c.func, ast.Attribute)
-                   and c.func.attr == 'pop' and isinstance(c.func.value, ast.Name)}
-    if len(stack_names) != 1:
-        raise Unmodelled(f'build_ast pops from {sorted(stack_names)}')
-    stackvar = stack_names.pop()
-    AN = 'pkg:ast_nodes:'
-
-    def isinst(val, refs):
-        refs = refs if isinstance(refs, tuple) else (refs,)
-        return isinstance(val, Rec) and 'cls' in val.f and any(r and ctx.res.is_subclass(val.get('cls'), r) for r in refs)
-
-    def run(node, stack):
-        it = Interp(ctx.a, pm, {nodevar: node, stackvar: stack}, isinstance_fn=isinst, self_class='pkg:parser:FormulaParser',
-                    scope_fn=build, record_unknown=True)
-        return it.run(lp.body)
-    A, B = _Operand('A'), _Operand('B')
-    node = Rec(cls=AN + 'OperatorNode', ttype=infix_s, tvalue='-', tsubtype='math', left=None, right=None)
-    stack = [A, B]
-    run(node, stack)
-    ctx.expect(node.get('left') is A and node.get('right') is B, build, 'infix node: left <- first pushed, right <- last pushed',
-               f'for the reverse-Polish sequence A B - build_ast sets left={getattr(node.get("left"), "label", node.get("left"))}, '
-               f'right={getattr(node.get("right"), "label", node.get("right"))}: the operands of binary operators are swapped (A-B becomes B-A)')
-    ctx.expect(stack == [node], build, 'infix node replaces its two operands on the stack',
-               f'after an infix operator the stack holds {len(stack)} entries')
-    node = Rec(cls=AN + 'OperatorNode', ttype=prefix_s, tvalue='-', tsubtype='', left=None, right=None)
-    stack = [A, B]
-    run(node, stack)
-    ctx.expect(node.get('right') is B and node.get('left') is None and stack == [A, node], build, 'prefix node: right <- last pushed only',
-               'a prefix operator does not take exactly the last pushed operand as its operand')
-    fnode = Rec(cls=AN + 'FunctionNode', ttype=consts['TOK_TYPE_FUNCTION'], tvalue='F', tsubtype='', num_args=3, args=None)
-    X, C = _Operand('X'), _Operand('C')
-    stack = [X, A, B, C]
-    run(fnode, stack)
-    got = fnode.get('args')
-    ctx.expect(isinstance(got, list) and got == [A, B, C] and stack == [X, fnode], build, 'function node: arguments in written order',
-               f'F(A,B,C) gets its arguments as {[getattr(g, "label", g) for g in got] if isinstance(got, list) else got}: not in the order they were written')
-    # OperatorNode.eval: left value is the first argument of the operator function, right value the second
-    am = ctx.mod('ast_nodes')
-    ev = am.func('OperatorNode.eval')
-    seen = {}
-
-    def model(name):
-        def f(*a):
-            seen[name] = a
-            return Opaque(name)
-        return f
-    _, anode, infix = _table(ctx, 'ast_nodes', 'INFIX_OP_TO_FUNC')
-    _, pnode, prefix = _table(ctx, 'ast_nodes', 'PREFIX_OP_TO_FUNC')
-    models = {}
-    for tab in (infix, prefix):
-        for k_, v in tab.items():
-            if isinstance(v, Ref):
-                models[v.ref] = model(v.ref)
-    want_ref = infix.get('-').ref if isinstance(infix.get('-'), Ref) else None
-    from . import corelemma
-
-    def opnode(ttype, tsubtype, left, right):
-        mk = Interp(ctx.a, am, {}, inline_pkg=True)
-        nd = corelemma.build_node(mk, 'OperatorNode', Rec(cls='pkg:tokenizer:f_token', tvalue='-', ttype=ttype, tsubtype=tsubtype))
-        nd.set('left', left)
-        nd.set('right', right)
-        return nd
-    it = Interp(ctx.a, am, {'self': opnode(infix_s, 'math', A, B), 'context': Rec()},
-                call_models=models, self_class='pkg:ast_nodes:OperatorNode', scope_fn=ev)
-    it.run(ev.body)
-    ctx.expect(seen.get(want_ref) == ('value of A', 'value of B'), ev, 'infix eval: f(left value, right value) keyed by the operator text',
-               f'evaluating the node "A - B" calls {list(seen)} with {list(seen.values())}: expected the function registered for "-" '
-               'with (value of the left operand, value of the right operand)')
-    seen.clear()
-    want_ref = prefix.get('-').ref if isinstance(prefix.get('-'), Ref) else None
-    it = Interp(ctx.a, am, {'self': opnode(prefix_s, '', None, B), 'context': Rec()},
-                call_models=models, self_class='pkg:ast_nodes:OperatorNode', scope_fn=ev)
-    it.run(ev.body)
-    ctx.expect(seen.get(want_ref) == ('value of B',), ev, 'prefix eval: f(right value)',
-               f'evaluating the node "-B" calls {list(seen)} with {list(seen.values())}')
-    ctx.floor(6, 'operand-order obligations')
-
-
-def _arm_of(node):
-    p = node._parent
-    while p is not None and not isinstance(p, ast.If):
-        p = p._parent
-    return p or node
-
-
-def _op_call(stmts):
-    for s in stmts:
-        if isinstance(s, ast.Return) and isinstance(s.value, ast.Call):
-            return s.value
-    return None
+    models = P.operator_models(ctx)
+    rows = [('=A1-B1', ('op', '-', 'A1', 'B1')), ('=A1/B1', ('op', '/', 'A1', 'B1')), ('=A1^B1', ('op', '^', 'A1', 'B1')), ('=A1&B1', ('op', '&', 'A1', 'B1')),
+            ('=A1<B1', ('op', '<', 'A1', 'B1')), ('=A1>=B1', ('op', '>=', 'A1', 'B1')), ('=-A1', ('op', '-', 'A1')), ('=B1--A1', ('op', '-', 'B1', ('op', '-', 'A1'))),
+            ('=F(A1,B1,C1)', ('call', 'F', 'A1', 'B1', 'C1')), ('=F(C1,A1-B1,G(B1,A1))', ('call', 'F', 'C1', ('op', '-', 'A1', 'B1'), ('call', 'G', 'B1', 'A1'))),
+            ('=A1-B1-C1', ('op', '-', ('op', '-', 'A1', 'B1'), 'C1')), ('=A1/(B1-C1)', ('op', '/', 'A1', ('op', '-', 'B1', 'C1')))]
+    for formula, want in rows:
+        got = P.parse_tree(ctx, formula, models)
+        ctx.expect(got == P.refify(want), build, f'operand order: {formula}',
+                   f'{formula} is read as {got!r}, expected {want!r}: operands and arguments must keep their written order (A-B is not B-A)')
+    ctx.floor(12, 'operand-order witnesses')
 
 
 def _table(ctx, modname, name):
